@@ -72,7 +72,7 @@ try:
     dst = '/verif/seeded/' + sid
     os.makedirs(dst, exist_ok=True)
     for f in glob.glob(src + '/*'):
-        if os.path.isfile(f):
+        if os.path.isfile(f) and os.path.realpath(src) != os.path.realpath(dst):
             shutil.copy(f, dst)
     old = {}
     mp = dst + '/meta.json'
